@@ -297,12 +297,14 @@ def _run_pipeline(case):
     return OK(nontrivial, cls)
 
 
-_u = st.fixed_dictionaries(
+_u_full = st.fixed_dictionaries({"num": st.sampled_from(["i0", "f0", "false"]), "pairs": st.just(sorted(FALSY_OF))})
+_u_part = st.fixed_dictionaries(
     {
-        "num": st.sampled_from(["i0", "f0", "false", "i0", "false", None]),
+        "num": st.sampled_from(["i0", "f0", "false", None]),
         "pairs": st.lists(st.sampled_from(sorted(FALSY_OF)), unique=True, max_size=5).map(sorted),
     }
 ).filter(lambda u: u["num"] or u["pairs"])
+_u = st.one_of(_u_full, _u_full, _u_part)
 
 
 def _pipe_cases(max_ops):
@@ -315,6 +317,31 @@ def _pipe_cases(max_ops):
     return st.tuples(
         pipelines(max_ops=max_ops, exclude_tags=("abstime",), max_len=5), st.integers(0, 15), _u, st.sampled_from(["now", "now", "late", None])
     ).map(prep)
+
+
+def _per_op_cases():
+    """One operator form per case, fed directly with a falsy-rich input (every operator of the table is drawn uniformly)."""
+    from vlib.lab import timelines
+
+    names = sorted(n for n, o in OPS.items() if "abstime" not in o.tags)
+    pre = {
+        "any": st.just([]),
+        "obs": st.sampled_from([[["window_with_count", {"n": 2, "s": None}]], [["map_to_obs", {"os": [{"kind": "cold", "tl": [[1, "N", "l1"], [2, "N", "x:nn"], [2, "C", None]]}]}]]]),
+        "notif": st.just([["materialize", {}]]),
+    }
+
+    @st.composite
+    def _c(draw):
+        name = draw(st.sampled_from(names))
+        o = OPS[name]
+        src = {"kind": draw(st.sampled_from(["cold", "hot", "sync"])), "tl": draw(timelines(max_len=7, min_len=3, max_dt=2, values=DOMAIN, terminal=("C", "C", "E", None)))}
+        pc = {"root": {"f": "single", "srcs": [src]}, "ops": draw(pre[o.inp]) + [[name, draw(o.args)]]}
+        u = draw(_u_full)
+        pc = _into_domain(pc, draw(st.integers(0, 15)), u)
+        pc["ops"] = _guard_default_eq(pc["ops"])
+        return {"pipe": pc, "u": u, "inner": "now"}
+
+    return _c()
 
 
 # ---------------------------------------------------------------------------------------
@@ -464,6 +491,7 @@ def _run_subject(case):
 def checks(tier):
     q = tier == "quick"
     return [
-        Check("pipelines", _run_pipeline, strategy=_pipe_cases(4 if q else 6), examples={"quick": 2400, "thorough": 16 * 30000}, shards={"quick": 8, "thorough": 16}),
-        Check("subjects", _run_subject, strategy=_subject_cases(2 if q else 3), examples={"quick": 1600, "thorough": 16 * 15000}, shards={"quick": 8, "thorough": 16}),
+        Check("pipelines", _run_pipeline, strategy=_pipe_cases(4 if q else 6), examples={"quick": 1600, "thorough": 16 * 30000}, shards={"quick": 8, "thorough": 16}),
+        Check("per_op", _run_pipeline, strategy=_per_op_cases(), examples={"quick": 1600, "thorough": 16 * 15000}, shards={"quick": 8, "thorough": 16}),
+        Check("subjects", _run_subject, strategy=_subject_cases(2 if q else 3), examples={"quick": 1200, "thorough": 16 * 15000}, shards={"quick": 8, "thorough": 16}),
     ]
